@@ -5,7 +5,7 @@ import ast
 
 from .. import dl, lit
 from ..core import AnalysisError
-from ..src import call_name, dotted, mod, norm, stmt_key, walk_local
+from ..src import Locals, call_name, dotted, mod, norm, stmt_key, walk_local
 from . import c10
 
 TRANSPILE = ["transpile/parser.py", "transpile/emitter.py", "transpile/ast.py"]
@@ -323,6 +323,39 @@ def run(cx):
                             elif helper_guard_excludes_str(m_, atom, t_, v):
                                 guard = True
                     r.check(guard, f"{q}/numeric-use-of-mixed-field[{v}]", (m_, n), f"`{norm(n)}`: {v} is annotated Union[number, str] and holds C++ text whenever the argument is not a literal; comparing it without a guard that excludes the text form raises TypeError (an internal error) for such calls", sample=f"{q}: {norm(n)[:50]}")
+    # aggregate comparisons: min()/max()/sorted() over a collection that holds Union[number, str] fields compares a number
+    # with text unless *every* element is known to be a number (per-element isinstance atoms or an all(isinstance...) guard)
+    for m_ in (am_, em_, pm):
+        for q, fn in m_.funcs.items():
+            loc_ = None
+            for n in walk_local(fn, include_self=False):
+                if not (isinstance(n, ast.Call) and call_name(n) in ("min", "max", "sorted", "sum") and n.args):
+                    continue
+                loc_ = loc_ or Locals(fn)
+                elems = []
+                for a_ in n.args:
+                    src_ = loc_.resolve(a_) if isinstance(a_, ast.Name) else a_
+                    elems += list(src_.elts) if isinstance(src_, (ast.Tuple, ast.List)) else [src_]
+                mixed_el = [norm(e_) for e_ in elems if isinstance(e_, ast.Attribute) and isinstance(e_.value, ast.Name) and e_.value.id in ("node", "self", "decl") and e_.attr in mixed_fields]
+                if not mixed_el:
+                    continue
+                n_attr += 1
+                atoms = []
+                child = n
+                for anc in m_.ancestors(n):
+                    if isinstance(anc, ast.If) and (any(child is b for b in anc.body)):
+                        atoms += [norm(a_) for a_, t_ in split_and(anc.test, True) if t_]
+                    if isinstance(anc, ast.BoolOp) and isinstance(anc.op, ast.And):
+                        idx = next((i for i, val in enumerate(anc.values) if val is child), None)
+                        if idx is not None:
+                            atoms += [norm(e_) for e_ in anc.values[:idx]]
+                    child = anc
+                    if isinstance(anc, ast.FunctionDef):
+                        break
+                coll = norm(n.args[0])
+                all_guard = any(a_.startswith("all(isinstance(") and f" in {coll})" in a_ and "str" not in a_ for a_ in atoms)
+                each = all(any(a_.startswith(f"isinstance({e_},") and "str" not in a_ for a_ in atoms) for e_ in mixed_el)
+                r.check(all_guard or each, f"{q}/{call_name(n)}-over-mixed-fields[{coll}]", (m_, n), f"`{norm(n)}` orders {mixed_el}, each a number or C++ text: with exactly one of them given as an expression the comparison raises TypeError (an `any(isinstance...)` guard does not exclude that)", sample=f"{q}: {norm(n)[:40]}")
     cx.extra["mixed_field_uses"] = n_attr
     # control: the helper-guard evaluator must accept an any()-style guard and refuse an all()-style one
     ctl = ast.parse("def g_any(*v):\n    return any(isinstance(x, str) for x in v)\ndef g_all(*v):\n    return all(isinstance(x, str) for x in v)\n")
@@ -334,6 +367,26 @@ def run(cx):
     ok_all = helper_guard_excludes_str(_Ctl, ast.parse("not g_all(a, b)", mode="eval").body, True, "a")
     if not ok_any or ok_all:
         raise AnalysisError("the helper-guard evaluation lost its control (any()-guard must protect, all()-guard must not)")
+
+    # IR classes declared frozen cannot be updated in place: an attribute store on such a node raises FrozenInstanceError
+    from .. import pe as pe_
+    cls_, fields_ = pe_.ir_classes()
+    frozen_fields = {}
+    for cn_, c_ in cls_.items():
+        if getattr(c_, "__dl_frozen__", False):
+            for f_ in fields_[cn_]:
+                frozen_fields.setdefault(f_[0], set()).add(cn_)
+    n_store = 0
+    for m_ in (pm, em_):
+        for q, fn in m_.funcs.items():
+            for n in walk_local(fn, include_self=False):
+                if isinstance(n, (ast.Assign, ast.AugAssign)):
+                    for t in (n.targets if isinstance(n, ast.Assign) else [n.target]):
+                        if isinstance(t, ast.Attribute) and isinstance(t.value, ast.Name) and t.value.id not in ("self", "ctx", "cls"):
+                            n_store += 1
+                            hit = frozen_fields.get(t.attr)
+                            r.check(not hit, f"{q}/store-into-frozen-node[{t.value.id}.{t.attr}]", (m_, n), f"`{stmt_key(n)}` assigns field {t.attr} of an object that can be a {sorted(hit or [])} node; that class is declared frozen, so the store raises dataclasses.FrozenInstanceError (an internal error) when this path runs", sample=None)
+    cx.extra["node_attribute_stores"] = n_store
 
     # ---- C11-CONVERT -------------------------------------------------------------------------
     r = cx.rule("C11-CONVERT", "number-to-number conversions of folded constants cannot raise OverflowError: _eval_const hands out only representable values (finite floats, ints within 64 bits, recursively in lists) and every unguarded int(x)/float(x) on a number takes its operand from _eval_const or from a value passed through _ensure_representable; tuple assignment checks its arity before indexing", floor=12)
@@ -368,7 +421,6 @@ def run(cx):
                 return False
         return False
 
-    from ..src import Locals
     n_conv = 0
     for q, fn in pm.funcs.items():
         loc = None
@@ -448,6 +500,40 @@ def run(cx):
                     if (n.lineno, n.col_offset) < first_app:
                         guarded = True
         r.check(guarded, f"_eval_const._apply_bin[{opname}]-unbounded", (pm, keys[opname]), f"ast.{opname} is folded with operator.{fn_name} on unbounded literal operands (e.g. sleep(10**10**8) never returns)")
+
+    # no fold hands out an integer wider than the evaluator's own bound: a family of powers and shifts whose results need
+    # about 5000 bits must be declined whatever the base (1 << n grows although 1 ** n does not)
+    evc_ = pm.func("_eval_const")
+    wide = ["1 << 5000", "-1 << 5000", "True << 5000", "2 << 5000", "3 << 4999", "2 ** 5000", "-2 ** 5001", "3 ** 3200", "10 ** 1600", "(1 << 3000) << 3000", "7 ** 1800", "(2 ** 64) ** 80"]
+    import operator as _op
+    applied = []
+
+    def _rec(fn_):
+        def w(a, b):
+            res = fn_(a, b)
+            applied.append((fn_.__name__, a, b, res.bit_length() if isinstance(res, int) else 0))
+            return res
+        return w
+
+    saved = {k_: dl._PURE_STDLIB[k_] for k_ in (("operator", "pow"), ("operator", "lshift"))}
+    recs = {k_: _rec(v_) for k_, v_ in saved.items()}
+    try:
+        for k_, v_ in recs.items():
+            dl._PURE_STDLIB[k_] = v_
+            dl._PURE_CALLABLES.add(v_)
+        for e_ in wide:
+            del applied[:]
+            it_ = dl.Interp(pm, opaque={"ast.parse": ast.parse, "ast.walk": lambda n_: list(ast.walk(n_)), "ast.iter_child_nodes": lambda n_: list(ast.iter_child_nodes(n_))})
+            try:
+                out_ = it_.call(evc_, [e_, {}])
+            except dl.Unsupported as ex_:
+                raise AnalysisError(f"_eval_const left the evaluable subset on `{e_}`: {ex_}")
+            widest = max([x[3] for x in applied] or [0])
+            r.check(widest <= 4500, f"_eval_const/wide-result-never-computed[{'<<' if '<<' in e_ else '**'}]", (pm, evc_), f"while evaluating {e_!r} the evaluator applied {[(x[0], x[3]) for x in applied if x[3] > 4500][:2]} (operator, result bits): the magnitude guard lets this operand through and the huge value is computed before anything can reject it (a larger exponent means minutes of CPU or gigabytes of memory)", sample=e_)
+    finally:
+        for k_, v_ in saved.items():
+            dl._PURE_CALLABLES.discard(dl._PURE_STDLIB[k_])
+            dl._PURE_STDLIB[k_] = v_
 
     # ---- C11-STATE ---------------------------------------------------------------------------
     c10.rule_global_state(cx, "C11-STATE", mods + [init])
